@@ -30,7 +30,8 @@ for i, a in enumerate(args):
     if a == "--src":
         src = args[i + 1]
 ident = f"{prop}{var}"
-d = f"{src}/{prop}/{var}" if os.path.isdir(f"{src}/{prop}/{var}") else f"{src}/{prop}"
+d = f"{src}/{prop}/{var}" if os.path.isdir(f"{src}/{prop}/{var}") else \
+    (f"{src}/{prop}{var}" if os.path.isdir(f"{src}/{prop}{var}") else f"{src}/{prop}")
 wt = f"/tmp/mutrun/{ident}"
 os.makedirs("/tmp/mutrun", exist_ok=True)
 res = {"id": ident, "patch": f"{d}/patch.diff"}
